@@ -157,6 +157,10 @@ func one(v Vec, kind string, cli bool) string {
 	T := ents["T"]
 	switch v.Via {
 	case "entity":
+		// the cache has been used before (its files list the entity), it is closed while the entity API removes
+		if c, err := hx.OpenCache(repo); err == nil {
+			_ = c.Close()
+		}
 		for round := 0; round < 2; round++ {
 			var err error
 			if kind == "bug" {
@@ -170,6 +174,22 @@ func one(v Vec, kind string, cli bool) string {
 			if why := checkRefs(fmt.Sprintf("after removal %d", round+1)); why != "" {
 				return why
 			}
+		}
+		// a rebuild forced by the loss of the *other* cache file: the file of this kind still loads (and still lists the
+		// removed entity); what the rebuilt cache serves is what has a local ref
+		other := "identities"
+		if kind != "bug" {
+			other = "bugs"
+		}
+		_ = os.Remove(filepath.Join(dir, ".git", "git-bug", "cache", other))
+		c, err := hx.OpenCache(repo)
+		if err != nil {
+			return "rebuild after entity-level removal: " + err.Error()
+		}
+		why := cacheView(c, kind, ents, v.After.Lref, "after entity-level removal and a rebuild forced by the loss of the other cache file")
+		_ = c.Close()
+		if why != "" {
+			return why
 		}
 	case "cache":
 		c, err := hx.OpenCache(repo)
